@@ -266,7 +266,20 @@ func runHistory(k *vf.Case) {
 				case 1:
 					name = "r"
 				}
-				_, sp := tr.Start(context.Background(), name)
+				pctx := context.Background()
+				if pr.Chance(1, 4) {
+					// child of a remote parent whose flags byte carries more than the sampled bit
+					// (W3C level-2 random-trace-id flag, vendor bits): the child inherits those bits
+					var tid trace.TraceID
+					var sid trace.SpanID
+					copy(tid[:], pr.Bytes(16))
+					copy(sid[:], pr.Bytes(8))
+					tid[0] |= 1
+					sid[0] |= 1
+					fl := vf.Pick(pr, []trace.TraceFlags{0x00, 0x01, 0x02, 0x03, 0x81, 0xfe, 0xff})
+					pctx = trace.ContextWithRemoteSpanContext(pctx, trace.NewSpanContext(trace.SpanContextConfig{TraceID: tid, SpanID: sid, TraceFlags: fl, Remote: true}))
+				}
+				_, sp := tr.Start(pctx, name)
 				rec := spanRec{id: sp.SpanContext().SpanID(), producer: p, seq: i, sampled: sp.SpanContext().IsSampled()}
 				rec.call = vf.Tick()
 				sp.End()
